@@ -69,7 +69,7 @@ func sharingConfigs(env *engine.Env) []fixture.Doc {
 		mk(tagged, func(d fixture.Doc) {
 			d["overrides"] = map[string]any{"apk": map[string]any{"depends": []any{"only-apk"}}, "deb": map[string]any{"recommends": []any{"only-deb"}}}
 		}),
-		mk(plain, func(d fixture.Doc) { d["arch"] = "arm6"; d["release"] = "" ; delete(d, "release") }),
+		mk(plain, func(d fixture.Doc) { d["arch"] = "arm6"; d["release"] = ""; delete(d, "release") }),
 		mk(plain, func(d fixture.Doc) { delete(d, "maintainer") }),
 		mk([]model.Entry{{Src: "tree", Dst: "/opt/tree", Type: "tree", HasInfo: true, Owner: "app"}, {Src: "etc/conf.d/*.conf", Dst: "/etc/conf.d", HasInfo: true, Group: "grp"}}, nil),
 		mk(partial, func(d fixture.Doc) {
@@ -164,8 +164,11 @@ func init() {
 					}
 				}
 			}
-			if env.Thorough() {
+			{
 				for ci := 0; ci < n; ci++ {
+					if !env.Thorough() && ci != 1 && ci != n-3 && ci != n-1 {
+						continue // quick: three configurations (partial file_info, every content type, everything)
+					}
 					for i := range Formats {
 						for j := i + 1; j < len(Formats); j++ {
 							for k := j + 1; k < len(Formats); k++ {
